@@ -41,6 +41,7 @@ fn layout(ch: &mut Chooser) -> cfb::Layout {
         free_mini_sectors: 0,
         name_garbage: ch.flag("cfb.stale-bytes-after-name-terminator"),
         size_hi_garbage: ch.flag("cfb.v3-junk-in-upper-half-of-size-field"),
+        empty_minifat_sector: ch.flag("cfb.mini-fat-sector-without-mini-stream"),
     }
 }
 
